@@ -12,20 +12,27 @@ CFG = dict(
                "agreement for any finite committee. The node model is tied to the code by the multi-node differential run (every correct node of every adversarial schedule "
                "of n = 4 and 7 REAL controllers is diffed against the model) and regenerated facts/kernels. Scope of the theorem: light node (no storage reload), NO runner "
                "compaction, one height per system. Implementation-side search with the agreement oracle also runs WITH the runner's real compaction, where it reproduces two "
-               "correct operators reporting different values (known finding, same cause as C06).",
+               "correct operators reporting different values (known finding, same cause as C06). "
+               "Ssv/Props/C01Heights.lean lifts the one-height scope: C01_agreement_all_heights for the multi-height system Ssv/Model/Qbft/SystemM.lean (start at any height, "
+               "messages and decided messages of any height, the sorted 2-slot instance container with eviction: an evicted instance is never restored and a re-reported "
+               "decision is backed by an authentic commit quorum of that height). Unforgeability covers own-identifier signed parts only: parts carrying a FOREIGN identifier "
+               "are adversary-controlled (correct operators sign other roles with the same keys) — the adversary class that exposed the genuine cross-role replay defect "
+               "repaired in /repo e1612ceed; C01_identifier_regression_old_model_disagrees / _fixed_rejects keep the pre-fix validators as a refuted regression model.",
     level_note="Trusted: Lean kernel (propext/Classical.choice/Quot.sound), Mathlib.Data.Finset.Card / Fintype.Card / Finset.Max / List.Nodup / Tactic.Linarith in proofs, the "
                "extractor and kernel translator, the harness abstraction; BLS and SHA-256 abstracted (unforgeability is the step precondition `authentic`; hash = identity on "
                "value ids). Not covered by the theorem: runner compaction (known finding), full-node reload from storage, interplay of several heights in one controller (C15).",
     technique="Lean 4 proof (invariant over all reachable states of the executable multi-node model ⇒ rules H0–H7 ⇒ agreement) + node model diffed against n real controllers under an adversarial scheduler + agreement oracle",
-    lean=["Ssv.Props.C01"],  # + "Ssv.Props.C01LayerB" (temporarily out while its proofs follow the model change for fix e1612ceed)
+    lean=["Ssv.Props.C01", "Ssv.Props.C01LayerB", "Ssv.Props.C01Heights"],
     engines=[dict(harness="qbft", driver="m_qbft", args=["-mode", "sim"], case_delim="reset",
                   n_quick=14000, n_thorough=200000, thorough_seeds=4, n_search=60000, search_seeds=3)],
     rule="n=4 and n=7 REAL controllers (real BLS) under a seeded adversarial scheduler: in-order / reordered / dropped / duplicated deliveries, bursts, timeouts, up to f "
          "Byzantine operators (equivocating proposals per recipient incl. justified ones for later rounds, prepares/commits for arbitrary roots to subsets, round-changes "
          "with real prepare justifications, decided certificates aggregated from collected real commits and delivered to operators that already timed out, re-signed "
-         "mutations of everything seen), with and without the runner's real compaction; 4 directed scenarios first; every correct operator's exact input sequence and "
+         "mutations of everything seen), with and without the runner's real compaction; in 60 % of the schedules every correct operator also runs a real controller "
+         "for a SECOND duty role (other identifier, same height) whose round-changes/prepares the Byzantine operators embed as justifications (round-change quorums of later "
+         "rounds, locks backed only by the other role's prepares) or send directly; 5 directed scenarios first (incl. the cross-role replay repaired by e1612ceed); every correct operator's exact input sequence and "
          "outputs form a `reset` case that is diffed against the Lean model",
     trusted_base=["harness abstraction + scheduler (harness/cmd/qbft/simsearch.go, directed.go)", "BLS / SHA-256 abstracted"],
-    assumptions=["unforgeability of BLS signatures, collision-free hashing", "light node, no runner compaction, one height per system (scope of the theorem)"],
+    assumptions=["unforgeability of BLS signatures, collision-free hashing", "light node, no runner compaction, light node, no runner compaction (scope of the theorems); several heights per controller are covered by C01Heights"],
     explanation="KNOWN-FINDING lines: agreement fails on the compacting node (directed scenarios with Byzantine leader + compaction, reproduced on every run).",
 )
